@@ -653,6 +653,10 @@ C17CallerEnds ==
     /\ kind[f[1]] = "Stopped"
     /\ (f[2] \in {"run", "consts"} /\ PolOf(f[1]).out /\ cancl[f[1]] # "ok") => outs[f[1]] # << >>
 
+\* C17: "after all scheduled policies have ended -- by success, MPC error, ..." -- a policy whose MPC task has finished
+\* (result or error delivered, or nothing to deliver) stops and gives its permit back
+C17TaskEndEnds == Quiescent => \A a \in A : mtask[a] = "finished" => kind[a] = "Stopped" /\ permit[a] = "none"
+
 \* C15: cancel() always returns
 C15Liveness == \A a \in A : (cancl[a] = "called") ~> (cancl[a] # "called")
 =============================================================================
